@@ -126,6 +126,7 @@ package nsqd
 
 // The deferred map pop: exactly one caller obtains a given deferred item; a refused call changes nothing.
 //@ func (c *Channel) popDeferredMessage(id MessageID) (*pqueue.Item, error)
+//@   keeps r4BExitTests, r4BExitTestChan, r4BExitTestSaw, r4BExitTestHeld
 //@   props C04 C01 C13 C08
 //@   ghostparam gid MessageID
 //@   requires c != nil
@@ -160,6 +161,10 @@ package nsqd
 //@   ensures[pop-is-for-the-shifted] kDefPops > old(kDefPops) ==> kDefPopChan == c && kDefPopID == unbox(kDefShifted.Value, "*Message").ID
 //@   ensures[put-the-shifted] chanPuts > old(chanPuts) && kDefPopErr == nil ==> lastChanPutMsg == unbox(kDefShifted.Value, "*Message")
 //@   ensures[never-early] kDefShifts > old(kDefShifts) ==> kDefShifted.Priority <= t
+//   (round 6, area M; r4B gap B6) C08 exit discipline for the timeout scans: every message the scan hands back to the queue is enqueued after an
+//   exit test made by THIS call while it held exitMutex, which answered "not exiting" (Channel.exit cannot flush / discard in between). The
+//   record of the test (free ghosts, zz_contracts_r4B_verif.go) survives the heap and map helpers through their `keeps` lines.
+//@   ensures[enqueued-only-after-exit-test-under-exit-lock] chanPuts != old(chanPuts) ==> r4BExitTests == old(r4BExitTests) + 1 && r4BExitTestChan == c && r4BExitTestHeld && !r4BExitTestSaw
 //@   ensures[dirty] result <==> kDefShifts > old(kDefShifts)
 //@   ensures[counters-untouched] c.messageCount == old(c.messageCount) && c.requeueCount == old(c.requeueCount) && c.timeoutCount == old(c.timeoutCount)
 //@   modifies c.deferredMessages, c.deferredPQ, mapstore(map[MessageID]*pqueue.Item), elems(*pqueue.Item), pqueue.Item.Index, deref(pqueue.PriorityQueue),
@@ -174,6 +179,7 @@ package nsqd
 //@     invariant[popped-requeued] chanPuts - old(chanPuts) == kDefPops - old(kDefPops)
 //@     invariant[last-pop-ok] kDefPops > old(kDefPops) ==> kDefPopErr == nil && kDefPopChan == c && kDefPopID == unbox(kDefShifted.Value, "*Message").ID && lastChanPutMsg == unbox(kDefShifted.Value, "*Message")
 //@     invariant[never-early] kDefShifts > old(kDefShifts) ==> kDefShifted.Priority <= t
+//@     invariant[exit-test-passed-under-exit-lock] holds(c, "exitMutex") && r4BExitTests == old(r4BExitTests) + 1 && r4BExitTestChan == c && r4BExitTestHeld && !r4BExitTestSaw
 //@     invariant[dirty] dirty <==> kDefShifts > old(kDefShifts)
 //@     invariant[counters] c.messageCount == old(c.messageCount) && c.requeueCount == old(c.requeueCount) && c.timeoutCount == old(c.timeoutCount)
 
@@ -194,6 +200,10 @@ package nsqd
 //@   ensures[never-early] kIFShifts > old(kIFShifts) ==> kIFShifted.pri <= t
 //@   ensures[timeouts-counted] c.timeoutCount == (chanPuts == old(chanPuts) ? old(c.timeoutCount) : fmod(old(c.timeoutCount) + (chanPuts - old(chanPuts)), two64()))
 //@   ensures[consumer-told-at-most-once-each] kConsTimedOut - old(kConsTimedOut) <= chanPuts - old(chanPuts) && kConsTimedOut >= old(kConsTimedOut)
+//   (round 6, area M; r4B gap B6) C08 exit discipline for the timeout scans: every message the scan hands back to the queue is enqueued after an
+//   exit test made by THIS call while it held exitMutex, which answered "not exiting" (Channel.exit cannot flush / discard in between). The
+//   record of the test (free ghosts, zz_contracts_r4B_verif.go) survives the heap and map helpers through their `keeps` lines.
+//@   ensures[enqueued-only-after-exit-test-under-exit-lock] chanPuts != old(chanPuts) ==> r4BExitTests == old(r4BExitTests) + 1 && r4BExitTestChan == c && r4BExitTestHeld && !r4BExitTestSaw
 //@   ensures[dirty] result <==> kIFShifts > old(kIFShifts)
 //@   ensures[counters-untouched] c.messageCount == old(c.messageCount) && c.requeueCount == old(c.requeueCount)
 //@   modifies c.inFlightMessages, c.inFlightPQ, mapstore(map[MessageID]*Message), elems(*Message), Message.index, deref(inFlightPqueue), c.timeoutCount,
@@ -211,6 +221,7 @@ package nsqd
 //@     invariant[never-early] kIFShifts > old(kIFShifts) ==> kIFShifted.pri <= t
 //@     invariant[timeouts-counted] c.timeoutCount == (chanPuts == old(chanPuts) ? old(c.timeoutCount) : fmod(old(c.timeoutCount) + (chanPuts - old(chanPuts)), two64()))
 //@     invariant[told] kConsTimedOut - old(kConsTimedOut) <= chanPuts - old(chanPuts) && kConsTimedOut >= old(kConsTimedOut)
+//@     invariant[exit-test-passed-under-exit-lock] holds(c, "exitMutex") && r4BExitTests == old(r4BExitTests) + 1 && r4BExitTestChan == c && r4BExitTestHeld && !r4BExitTestSaw
 //@     invariant[dirty] dirty <==> kIFShifts > old(kIFShifts)
 //@     invariant[counters] c.messageCount == old(c.messageCount) && c.requeueCount == old(c.requeueCount)
 
